@@ -747,7 +747,7 @@ func Check(propID, tier string) int {
 		if pr.err != nil {
 			code := pr.cmd.ProcessState.ExitCode()
 			if code == 2 {
-				fmt.Fprintf(os.Stderr, "worker %d failed (infrastructure):\n%s\n", w, pr.stderr.String())
+				fmt.Fprintf(os.Stderr, "worker %d failed (infrastructure):\n%s\n", w, tail(pr.stderr.String(), 12))
 				infra = true
 				continue
 			}
